@@ -167,14 +167,13 @@ package xlsx
 //@ func (*Reader) findContentBounds results (minRow, maxRow, minCol, maxCol)
 //@   property C17
 //@   flags pure, readonly
-//@   requires sheet.MaxCol >= 0 - 1
 //@   ensures encloses_every_value: forall a int, b int :: {sheet.Rows[a][b]} 0 <= a && a < len(sheet.Rows) && 0 <= b && b < len(sheet.Rows[a]) && !sheet.Rows[a][b].IsEmpty() ==> minRow <= a && a <= maxRow && minCol <= b && b <= maxCol
-//@   ensures within_grid: minRow >= 0 && maxRow < len(sheet.Rows) && minCol >= 0 && maxRow >= 0 - 1 && maxCol >= 0 - 1
+//@   ensures within_grid: minRow >= 0 && maxRow < len(sheet.Rows) && (sheet.MaxCol >= 0 - 1 ==> minCol >= 0) && maxRow >= 0 - 1 && maxCol >= 0 - 1
 //@   loop 0:
-//@     invariant minRow >= 0 && maxRow < $i && maxRow < len(sheet.Rows) && minCol >= 0 && maxRow >= 0 - 1 && maxCol >= 0 - 1
+//@     invariant minRow >= 0 && maxRow < $i && maxRow < len(sheet.Rows) && (sheet.MaxCol >= 0 - 1 ==> minCol >= 0) && maxRow >= 0 - 1 && maxCol >= 0 - 1
 //@     invariant forall a int, b int :: {sheet.Rows[a][b]} 0 <= a && a < $i && 0 <= b && b < len(sheet.Rows[a]) && !sheet.Rows[a][b].IsEmpty() ==> minRow <= a && a <= maxRow && minCol <= b && b <= maxCol
 //@   loop 1:
-//@     invariant minRow >= 0 && maxRow <= rowIdx && minCol >= 0 && maxRow >= 0 - 1 && maxCol >= 0 - 1
+//@     invariant minRow >= 0 && maxRow <= rowIdx && (sheet.MaxCol >= 0 - 1 ==> minCol >= 0) && maxRow >= 0 - 1 && maxCol >= 0 - 1
 //@     invariant forall a int, b int :: {sheet.Rows[a][b]} 0 <= a && a < rowIdx && 0 <= b && b < len(sheet.Rows[a]) && !sheet.Rows[a][b].IsEmpty() ==> minRow <= a && a <= maxRow && minCol <= b && b <= maxCol
 //@     invariant forall b int :: {row[b]} 0 <= b && b < $i && !row[b].IsEmpty() ==> minRow <= rowIdx && rowIdx <= maxRow && minCol <= b && b <= maxCol
 
@@ -251,3 +250,12 @@ package xlsx
 //@     step one_delimiter_between_fields: delims == prev(delims) + (len(row) > 0 ? len(row) - 1 : 0)
 //@   loop 3:
 //@     invariant delims == entry(delims) + ($i > 0 ? $i - 1 : 0)
+
+// ---- C17: the document-model table of a sheet: table cell (r - minRow, c - minCol) carries the value (and the merge
+// extent) of grid cell (r, c) ----
+//@ func (*Reader) Document results (doc, err)
+//@   property C17
+//@   flags nosafety
+//@   loop 3:
+//@     step model_cell_is_the_grid_cell: table.Rows[rowIdx - minRow][prev(colIdx) - minCol].Text == sheet.Rows[rowIdx][prev(colIdx)].Value && table.Rows[rowIdx - minRow][prev(colIdx) - minCol].RowSpan == sheet.Rows[rowIdx][prev(colIdx)].MergeRows && table.Rows[rowIdx - minRow][prev(colIdx) - minCol].ColSpan == sheet.Rows[rowIdx][prev(colIdx)].MergeCols
+//@     decreases maxCol + 1 - colIdx
